@@ -223,6 +223,7 @@ def _container_name(toks, k_open):
             elif t.kind == "id" and depth == 0 and t.text not in ("dyn", "mut", "const"):
                 name = t.text
         trait = None
+        trait_full = None
         if split is not None:
             depth = 0
             for t in rest[:split]:
@@ -232,12 +233,15 @@ def _container_name(toks, k_open):
                     depth -= 1
                 elif t.kind == "id" and depth == 0:
                     trait = t.text
-        return ("impl", name, trait)
+            # full text of the trait reference (generic arguments included, no whitespace): tells apart the
+            # several `impl PartialEq<X> for T` blocks of one type
+            trait_full = " ".join(t.text for t in rest[:split])
+        return ("impl", name, trait, trait_full)
     for kw in ("trait", "mod"):
         if kw in words:
             a = words.index(kw)
             if a + 1 < len(hdr) and hdr[a + 1].kind == "id":
-                return (kw, hdr[a + 1].text, None)
+                return (kw, hdr[a + 1].text, None, None)
     return None
 
 
@@ -273,10 +277,12 @@ def index_functions(src, toks=None):
             conts = containers_at(k)
             f.container = []
             f.trait = None
+            f.trait_full = None
             for c in conts:
                 f.container.append(c[1])
                 if c[0] == "impl":
                     f.trait = c[2]
+                    f.trait_full = c[3]
             # enclosing fn (nested fn)? we treat nested fns by their own name with the outer fn name as container
             for g in fns:
                 if g.body_open is not None and g.body_open < k < g.body_close:
